@@ -4,6 +4,7 @@ import (
 	"context"
 	"errors"
 	"fmt"
+	"io"
 	"net/http/httptest"
 	"strings"
 	"sync"
@@ -270,6 +271,67 @@ func propC18(c *ctx) error {
 		}
 	}
 	res.Exhaustive = true
+	// directed interleavings: a request is in flight inside the OLD manager's GetTemplate while a Reload completes;
+	// every request that STARTS after the successful Reload returned must be served from the new set
+	for _, reloadOK := range []bool{true, false} {
+		for _, sameName := range []bool{true, false} {
+			gate := make(chan struct{})
+			entered := make(chan struct{}, 4)
+			cur := 1
+			fail := false
+			var bmu sync.Mutex
+			b := func(ctx context.Context) (types.TemplateManager, error) {
+				bmu.Lock()
+				defer bmu.Unlock()
+				if fail {
+					return nil, errBuild
+				}
+				m := &stubMgr{id: cur}
+				if cur == 1 {
+					m.gate, m.entered = gate, entered
+				}
+				return m, nil
+			}
+			rr, err := tpl.NewHTMLRender(b)
+			if err != nil {
+				return err
+			}
+			firstDone := make(chan string, 1)
+			go func() {
+				w := httptest.NewRecorder()
+				rr.Instance(context.Background(), "a", nil).Render(w)
+				firstDone <- w.Body.String()
+			}()
+			<-entered // request #1 is now inside the old manager's GetTemplate
+			bmu.Lock()
+			cur, fail = 2, !reloadOK
+			bmu.Unlock()
+			rerr := rr.Reload(context.Background())
+			close(gate) // let request #1 finish
+			first := <-firstDone
+			name := "a"
+			if !sameName {
+				name = "b"
+			}
+			w := httptest.NewRecorder()
+			rr.Instance(context.Background(), name, nil).Render(w)
+			w2 := httptest.NewRecorder()
+			rr.Instance(context.Background(), "a", nil).Render(w2)
+			wantID := 2
+			if !reloadOK {
+				wantID = 1
+			}
+			cs := J{"schedule": "request#1 blocked in old GetTemplate; Reload; release; request#2; request#3", "reload_ok": reloadOK, "same_name": sameName}
+			res.eval("sched|"+jstr(cs), true, cs)
+			res.S3Checked++
+			want := fmt.Sprintf("m%d:%s", wantID, name)
+			if (rerr == nil) != reloadOK || first != "m1:a" || w.Body.String() != want || w2.Body.String() != fmt.Sprintf("m%d:a", wantID) {
+				res.violate(cs, J{"request1": "m1:a", "request2": want, "request3": fmt.Sprintf("m%d:a", wantID)},
+					J{"reload_err": fmt.Sprint(rerr), "request1": first, "request2": w.Body.String(), "request3": w2.Body.String()},
+					"a request started after a successful Reload is not served from the new template set (or a failed Reload changed the set)")
+			}
+		}
+	}
 	// concurrent Reload and requests: every request must be served from SOME successfully built set, never a torn one
 	// (data races themselves are the race harness's business: ./check C18 runs it in the thorough tier)
 	var wg sync.WaitGroup
@@ -312,4 +374,28 @@ func propC18(c *ctx) error {
 		res.violate(J{"concurrent": true}, "every request served from a built set", fmt.Sprintf("%d requests failed or were torn", bad), "concurrent Reload disturbs requests")
 	}
 	return nil
+}
+
+// stubMgr is a template manager whose GetTemplate can be made to block (directed interleavings).
+type stubMgr struct {
+	id      int
+	gate    chan struct{}
+	entered chan struct{}
+	once    sync.Once
+}
+
+type stubTpl struct{ text string }
+
+func (t stubTpl) Execute(w io.Writer, data any) error { _, err := w.Write([]byte(t.text)); return err }
+
+func (m *stubMgr) GetTemplate(name string) (types.Template, error) {
+	if m.gate != nil {
+		first := false
+		m.once.Do(func() { first = true })
+		if first {
+			m.entered <- struct{}{}
+			<-m.gate
+		}
+	}
+	return stubTpl{fmt.Sprintf("m%d:%s", m.id, name)}, nil
 }
